@@ -293,7 +293,11 @@ def arch_block(ctx, families=None, mean_units=None):
     nb = r.randint(2, 3)
     els = [ctx.plain()]
     capped_last = r.random() < 0.35  # the last block is closed by end groups instead of a suffix token
+    per_block_ids = r.random() < 0.3  # every block uses its own descriptor id (terminals of one symbol, different ids)
+    ids = r.sample([1, 2, 3, 5, 8, 13], nb)
     for b in range(nb):
+        if per_block_ids:
+            ctx.base_id = ids[b]
         u = [ctx.unit([ctx.lt(weight=r.choice([None, None, ctx.weight()])), ctx.gt()]) for _ in range(r.choice([1, 1, 2]))]
         lt, rt = ctx.gt(), ctx.lt()
         if capped_last and b == nb - 1:
@@ -311,6 +315,8 @@ def arch_block(ctx, families=None, mean_units=None):
             elif mode == "explicit":
                 # user-written connector: first descriptor meets the previous object, second (weight 0) the next one
                 d1 = ctx.lt()
+                if per_block_ids:
+                    ctx.base_id = ids[b + 1]
                 d2 = ctx.gt(weight=0.0)
                 els.append(ctx.unit([D(d1.sym, d1.id), d2], style="ends"))
     els.append(ctx.plain())
